@@ -103,9 +103,10 @@ def rule_strand_order(F, rep):
         f = fs[0]
         n += 1
         read = set()
-        for s in f.stmts():
-            for p in s.src_places():
-                read |= set(p.fields())
+        for body in [f] + F.closures_of(f):
+            for s in body.stmts():
+                for p in s.src_places():
+                    read |= {x for x in p.fields() if not x.isdigit()}
         if name == "partial_cmp":
             ok = any(c.is_("Ord::cmp") and "strand_heap" in (c.res or c.path or "") or c.name == "cmp" for c in f.calls) and not (read - {"key"})
         else:
